@@ -31,7 +31,7 @@ type c14Case struct {
 
 var c14Triggers = []string{"edit-subject", "touch+outdated", "generate-all", "strip-certificate", "expire", "renew+expired-flag", "regenerate-issuer", "keyalg-to-rsa", "keyalg-to-ec", "strip-hash"}
 
-var c14Decos = []string{"plain", "trailing-blank-line", "trailing-remark", "leading-bag-attributes", "crlf-line-ends", "blank-lines-around", "key-then-request-of-the-same-key", "request-of-the-same-key-then-key"}
+var c14Decos = []string{"plain", "trailing-blank-line", "trailing-remark", "leading-bag-attributes", "crlf-line-ends", "blank-lines-around", "key-then-request-of-the-same-key", "request-of-the-same-key-then-key", "hash-line-after-the-block", "key-then-the-same-key-in-traditional-form", "key-then-encrypted-key-block"}
 
 func c14Decorate(pem []byte, deco int) []byte {
 	switch c14Decos[deco] {
@@ -45,6 +45,9 @@ func c14Decorate(pem []byte, deco int) []byte {
 		return bytes.ReplaceAll(pem, []byte("\n"), []byte("\r\n"))
 	case "blank-lines-around":
 		return append(append([]byte("\n\n"), pem...), []byte("\n\n")...)
+	case "hash-line-after-the-block":
+		// the hash remark may stand anywhere in the file; here it follows the key or request (an older hash)
+		return append(append([]byte{}, pem...), []byte("#HASH:AAECAwQFBgcICQoLDA0ODxAREhM=\n")...)
 	}
 	return pem
 }
@@ -90,7 +93,7 @@ func c14Enumerate(tier string, yield func(any)) {
 		}
 		// files assembled by hand or exported by other tools carry text around the blocks
 		for deco := 1; deco < len(c14Decos); deco++ {
-			if c.CSR && deco >= 6 {
+			if c.CSR && (deco == 6 || deco == 7 || deco >= 9) {
 				continue // the request variant has no key to put next to it
 			}
 			for _, s := range seqs {
@@ -285,6 +288,19 @@ func c14Exec(x *engine.Ctx, cc any) {
 			content = append(append([]byte{}, keyPEM...), refx509.EncodePem("CERTIFICATE REQUEST", refx509.BuildCSR(key, "request next to its key", nil))...)
 		case "request-of-the-same-key-then-key":
 			content = append(refx509.EncodePem("CERTIFICATE REQUEST", refx509.BuildCSR(key, "request next to its key", nil)), keyPEM...)
+		case "key-then-the-same-key-in-traditional-form":
+			// what `openssl pkey -traditional` appends: a block gopki does not read, behind the one it does
+			var trad []byte
+			if key.RSA != nil {
+				trad = refx509.EncodePem("RSA PRIVATE KEY", x509.MarshalPKCS1PrivateKey(key.RSA))
+			} else if b, err := x509.MarshalECPrivateKey(key.EC); err == nil {
+				trad = refx509.EncodePem("EC PRIVATE KEY", b)
+			} else {
+				trad = refx509.EncodePem("EC PRIVATE KEY", []byte{0x30, 0x03, 0x02, 0x01, 0x01})
+			}
+			content = append(append([]byte{}, keyPEM...), trad...)
+		case "key-then-encrypted-key-block":
+			content = append(append([]byte{}, keyPEM...), refx509.EncodePem("ENCRYPTED PRIVATE KEY", bytes.Repeat([]byte{0x30, 0x82, 0x01, 0x02}, 40))...)
 		}
 		w.Put(ArtifactPath(mid.Path), content)
 	}
@@ -435,7 +451,7 @@ func init() {
 	register(&engine.Check{
 		ID:          "C14",
 		Level:       "model_checking",
-		Rule:        "chain root -> mid -> leaf where mid owns a pre-existing key (so children exist), in a flat directory with file-derived aliases and (trigger sequences of length <=1) in sub-directories with explicit aliases that differ from the file stems. Key origins: each of the 14 algorithms written by gopki's own PKCS#8 writer, standard-library PKCS#8 for RSA 1024/2048/4096 and the NIST curves, reference-built PKCS#8 for all 10 curves in 6 layouts (curve OID outer only, outer + public key, inner only, inner + public key, both + public key, outer + compressed public key), PKCS#8 for all 10 curves whose scalar is written without its one or two leading zero octets; CSR variant: the leaf holds only a request made from 8 key types. Each origin also with the file decorated the way hand-assembled or exported files are (trailing blank line, trailing remark, leading Bag-Attributes text, CRLF line ends, blank lines around) followed by no trigger, edit-subject or generate-all. From each, every trigger sequence of length <=2 for 15 representative origins and <=1 for the others (quick) / <=3 for every origin (thorough) over {edit subject, touch + generate-outdated, generate-all, strip certificate block, expire (dates in the past), renew + generate-expired, regenerate issuer, change keyAlgorithm to RSA, to another curve, strip hash line}. After every run: stored key is the same key, certificate SPKI is its public key, mid verifies under root and leaf under mid with byte-equal issuer DN; CSR variant: SPKI bytes = request SPKI, request block byte-identical, no PRIVATE KEY block. states = (origin, trigger prefix), transitions = runs",
+		Rule:        "chain root -> mid -> leaf where mid owns a pre-existing key (so children exist), in a flat directory with file-derived aliases and (trigger sequences of length <=1) in sub-directories with explicit aliases that differ from the file stems. Key origins: each of the 14 algorithms written by gopki's own PKCS#8 writer, standard-library PKCS#8 for RSA 1024/2048/4096 and the NIST curves, reference-built PKCS#8 for all 10 curves in 6 layouts (curve OID outer only, outer + public key, inner only, inner + public key, both + public key, outer + compressed public key), PKCS#8 for all 10 curves whose scalar is written without its one or two leading zero octets; CSR variant: the leaf holds only a request made from 8 key types. Each origin also with the file decorated the way hand-assembled or exported files are (trailing blank line, trailing remark, leading Bag-Attributes text, CRLF line ends, blank lines around, a #HASH line behind the block, the key followed by a traditional-form or an encrypted key block) followed by no trigger, edit-subject or generate-all. From each, every trigger sequence of length <=2 for 15 representative origins and <=1 for the others (quick) / <=3 for every origin (thorough) over {edit subject, touch + generate-outdated, generate-all, strip certificate block, expire (dates in the past), renew + generate-expired, regenerate issuer, change keyAlgorithm to RSA, to another curve, strip hash line}. After every run: stored key is the same key, certificate SPKI is its public key, mid verifies under root and leaf under mid with byte-equal issuer DN; CSR variant: SPKI bytes = request SPKI, request block byte-identical, no PRIVATE KEY block. states = (origin, trigger prefix), transitions = runs",
 		Bound:       map[string]string{"trigger sequence": "quick<=2 thorough<=3"},
 		Assumptions: []string{"key identity is compared on the private scalar / (N, D)"},
 		Budget:      budgets(quickBudget, thoroughBudget),
